@@ -107,6 +107,10 @@ def observe(mido, f, what):
 OBS = ('iter', 'length', 'merged', 'save', 'play', 'iter_nested')
 
 
+def contents(f):
+    return (f.type, f.ticks_per_beat, [[sig(m) for m in t] for t in f.tracks])
+
+
 def fresh_copy(mido, f):
     tracks = [mido.MidiTrack(m.copy() for m in t) for t in f.tracks]
     return mido.MidiFile(type=f.type, ticks_per_beat=f.ticks_per_beat,
@@ -158,13 +162,15 @@ def make_search(mido, depth, base=(0, 0)):
                    for m in f.tracks[i]):
                 out.append(('toggle_pitch', i))
             if len(f.tracks[i]):
-                out += [('del_msg0', i), ('set_time', i)]
+                out += [('del_msg0', i), ('set_time', i), ('dup_msg', i),
+                        ('double_track', i)]
                 if hasattr(f.tracks[i][0], 'tempo'):
                     out.append(('set_tempo_value', i))
         out += [('obs', w) for w in OBS]
         if base[0]:
             # large files: the edits that keep the size, and all observations
             drop = ('add_track_named', 'assign_tracks', 'type', 'append_track',
+                    'double_track',
                     'pop_track', 'del_track0', 'extend_msgs', 'append_pitch')
             return [o for o in out if o[0] not in drop] + [('partial', 'iter', 2)]
         # an observation abandoned half-way (break out of iteration / play
@@ -248,6 +254,11 @@ def make_search(mido, depth, base=(0, 0)):
                     break
         elif k == 'insert_tempo':
             f.tracks[op[1]].insert(0, MM('set_tempo', tempo=250000, time=0))
+        elif k == 'dup_msg':
+            # the SAME message object a second time (documented list use)
+            f.tracks[op[1]].append(f.tracks[op[1]][0])
+        elif k == 'double_track':
+            f.tracks[op[1]] = f.tracks[op[1]] * 2
         elif k == 'del_msg0':
             del f.tracks[op[1]][0]
         elif k == 'set_time':
@@ -255,7 +266,9 @@ def make_search(mido, depth, base=(0, 0)):
         elif k == 'set_tempo_value':
             f.tracks[op[1]][0].tempo = 1000000
         elif k == 'tpb':
-            f.ticks_per_beat = 96 if f.ticks_per_beat != 96 else 480
+            # 480 -> 96 -> 0 (the smallest value of the division field, what
+            # a damaged file may carry) -> 480
+            f.ticks_per_beat = {480: 96, 96: 0}.get(f.ticks_per_beat, 480)
         elif k == 'type':
             f.type = op[1]
         elif k == 'assign_tracks':
@@ -267,6 +280,18 @@ def make_search(mido, depth, base=(0, 0)):
         # after EVERY step, every observation must agree with a freshly built
         # file; the observation op itself is compared first (its result is
         # the one a user saw after this exact history)
+        if op[0] in ('obs', 'partial', 'nested', 'enter', 'exit'):
+            # looking at a file does not edit it
+            before = build(hist)['f']
+            if contents(before) != contents(f):
+                violation(f'{op[0]}/observation-changed-the-file',
+                          f'history {hist + (op,)}: contents before the '
+                          f'observation {_short(contents(before))}, after it '
+                          f'{_short(contents(f))}',
+                          {'kind': 'history',
+                           'ops': [list(o) for o in hist + (op,)],
+                           'observe': 'contents', 'base': list(base)})
+                return
         fr = fresh_copy(mido, f)
         todo = [op[1]] if op[0] == 'obs' else []
         first = True
@@ -339,7 +364,8 @@ def run():
         f'vars() of the MidiFile, cache included; tracks bounded at 2 x 3 '
         f'messages for expansion) over edits {{add_track, add_track(name), '
         f'tracks.append, tracks.pop, del tracks[0], track.append, track += '
-        f'[...], track.insert(0, set_tempo), del track[0], msg.time = 7, '
+        f'[...], track.insert(0, set_tempo), del track[0], msg.time = 7, the '
+        f'same message object appended again, track * 2, '
         f'msg.tempo = ..., ticks_per_beat, type 0/1/2, tracks = [...], entering '
         f'/ leaving the context-manager form}} and '
         f'observations {{list(f), f.length, f.merged_track, save bytes, '
